@@ -278,7 +278,9 @@ func TestProp_Generate(t *testing.T) {
 		case !nonceOK || !stateOK:
 			d.Expect = "error"
 		default:
-			d.Expect = "either(mixed signers)"
+			// nonce verified by one record of the lookup result, client state only by
+			// another: no record's key signed the request (C02 reads the statement the same way)
+			d.Expect = "error"
 		}
 
 		resp, err := nodetls.GenerateServerCertificates(w.Ctx, w.Store, req, w.O()...)
